@@ -9,6 +9,13 @@ import (
 	bpmn "github.com/olive-io/bpmn/v2"
 	"github.com/olive-io/bpmn/v2/pkg/event"
 
+	"context"
+	"sync"
+	"time"
+
+	"github.com/olive-io/bpmn/schema"
+	"github.com/olive-io/bpmn/v2/model"
+
 	"verif/internal/drive"
 	"verif/internal/fw"
 	"verif/internal/gen"
@@ -16,6 +23,8 @@ import (
 	"verif/internal/quiesce"
 	"verif/internal/refsem"
 	"verif/internal/step"
+
+	"github.com/olive-io/bpmn/v2/pkg/tracing"
 )
 
 type c11Case struct {
@@ -29,6 +38,10 @@ type c11Case struct {
 	PMKind string `json:"pm_kind,omitempty"`
 	PMDefs int    `json:"pm_defs,omitempty"`
 	PMHist []int  `json:"pm_hist,omitempty"`
+	// model: MProcs processes (start -> catch r<i> -> end) of one definitions value run inside a model.Model, which
+	// hands every event it is given to each of them; Hist is the sequence of refs delivered to the model (a process
+	// completes when its own event arrives; "zz" matches nobody)
+	MProcs int `json:"mprocs,omitempty"`
 }
 
 func c11Def(kind, ref string) gen.EventDef {
@@ -118,22 +131,55 @@ func c11Graph(c *c11Case) (*gen.Graph, map[string]string) {
 		g.Connect(xm, c1, nil)
 		g.Connect(c1, t1, nil)
 		g.Connect(t1, e, nil)
-	case "insub":
-		// the catch event sits inside an embedded sub-process
-		t0, sp := g.Add(gen.Task, "t0", ""), g.Add(gen.Sub, "S", "")
+	case "insub", "insub2", "insub3":
+		// the catch event sits inside an embedded sub-process (insub2 / insub3: nested two / three levels deep)
+		depth := 1
+		if c.Shape == "insub2" {
+			depth = 2
+		} else if c.Shape == "insub3" {
+			depth = 3
+		}
+		t0 := g.Add(gen.Task, "t0", "")
+		t2, e := g.Add(gen.Task, "t2", ""), g.Add(gen.End, "end", "")
+		g.Connect(s, t0, nil)
+		scope := ""
+		var outer *gen.Node
+		for l := 1; l < depth; l++ {
+			// wrapper levels: start -> next level -> end
+			w := g.Add(gen.Sub, fmt.Sprintf("O%d", l), scope)
+			if outer == nil {
+				g.Connect(t0, w, nil)
+				g.Connect(w, t2, nil)
+			}
+			ws := g.Add(gen.Start, fmt.Sprintf("os%d", l), w.ID)
+			we := g.Add(gen.End, fmt.Sprintf("oe%d", l), w.ID)
+			if outer != nil {
+				// the previous wrapper's start leads to this wrapper, which leads to the previous wrapper's end
+				g.Connect(g.Node(fmt.Sprintf("os%d", l-1)), w, nil)
+				g.Connect(w, g.Node(fmt.Sprintf("oe%d", l-1)), nil)
+			}
+			outer = w
+			scope = w.ID
+			_ = ws
+			_ = we
+		}
+		sp := g.Add(gen.Sub, "S", scope)
+		if outer == nil {
+			g.Connect(t0, sp, nil)
+			g.Connect(sp, t2, nil)
+		} else {
+			g.Connect(g.Node(fmt.Sprintf("os%d", depth-1)), sp, nil)
+			g.Connect(sp, g.Node(fmt.Sprintf("oe%d", depth-1)), nil)
+		}
 		is := g.Add(gen.Start, "is", "S")
 		n := g.Add(gen.Catch, "c1", "S")
 		n.Events = []gen.EventDef{c11Def(c.Kind, "r1")}
 		refs["c1"] = "r1"
 		t1 := g.Add(gen.Task, "t1", "S")
 		ie := g.Add(gen.End, "ie", "S")
-		t2, e := g.Add(gen.Task, "t2", ""), g.Add(gen.End, "end", "")
-		g.Connect(s, t0, nil)
-		g.Connect(t0, sp, nil)
 		g.Connect(is, n, nil)
 		g.Connect(n, t1, nil)
 		g.Connect(t1, ie, nil)
-		g.Connect(sp, t2, nil)
 		g.Connect(t2, e, nil)
 	case "never":
 		x := g.Add(gen.Xor, "x", "")
@@ -174,7 +220,7 @@ func c11Alphabet(shape string) []string {
 		return []string{"e:r1", "e:zz", "x:r1", "a:t0", "a:t1"}
 	case "merge":
 		return []string{"e:r1", "e:zz", "a:t0", "a:t2", "a:t1"}
-	case "insub":
+	case "insub", "insub2", "insub3":
 		return []string{"e:r1", "e:zz", "x:r1", "a:t0", "a:t1"}
 	}
 	return nil
@@ -191,11 +237,194 @@ func c11Cross(kind, ref string) []event.IEvent {
 	return []event.IEvent{event.NewMessageEvent(ref, nil), event.NewMessageEvent(ref, &op1)}
 }
 
+type c11Recorder struct {
+	mu   sync.Mutex
+	seen []event.IEvent
+}
+
+func (r *c11Recorder) ConsumeEvent(ev event.IEvent) (event.ConsumptionResult, error) {
+	r.mu.Lock()
+	r.seen = append(r.seen, ev)
+	r.mu.Unlock()
+	return event.Consumed, nil
+}
+
+// count returns how often ev has been handed to the recorder so far
+func (r *c11Recorder) count(ev event.IEvent) int {
+	r.mu.Lock()
+	defer r.mu.Unlock()
+	n := 0
+	for _, x := range r.seen {
+		if x == ev {
+			n++
+		}
+	}
+	return n
+}
+
+// c11Model: see c11Case.MProcs. Every process that has not completed is handed each event given to the model
+// exactly once (observed by a consumer registered with the process, which is called synchronously); a process
+// that has completed is handed it at most once; a process completes when - and only when - its own event arrives.
+func c11Model(c *c11Case, v *fw.V) {
+	var gs []*gen.Graph
+	for i := 1; i <= c.MProcs; i++ {
+		g := gen.NewGraph(fmt.Sprintf("P%d", i))
+		s := g.Add(gen.Start, fmt.Sprintf("s%d", i), "")
+		n := g.Add(gen.Catch, fmt.Sprintf("c%d", i), "")
+		n.Events = []gen.EventDef{c11Def(c.Kind, fmt.Sprintf("r%d", i))}
+		e := g.Add(gen.End, fmt.Sprintf("e%d", i), "")
+		g.Connect(s, n, nil)
+		g.Connect(n, e, nil)
+		gs = append(gs, g)
+	}
+	defs, err := schema.Parse([]byte(gen.XML(gs, nil, "")))
+	if err != nil {
+		v.Inconclusive("parse", "%v", err)
+		return
+	}
+	perturb.Off()
+	cls := fmt.Sprintf("model-procs=%d", c.MProcs)
+	ctx, cancel := context.WithCancel(context.Background())
+	defer cancel()
+	mtr := tracing.NewTracer(ctx)
+	m, err := model.New(defs, model.WithContext(ctx), model.WithTracer(mtr))
+	if err != nil {
+		v.Violate("model-new-error", cls, "%v", err)
+		return
+	}
+	procs := make([]*bpmn.Process, c.MProcs)
+	recs := make([]*c11Recorder, c.MProcs)
+	listening := make([]chan struct{}, c.MProcs)
+	for i := range procs {
+		pid := fmt.Sprintf("P%d", i+1)
+		p, found := m.FindProcessBy(func(p *bpmn.Process) bool { id, ok := p.Element().Id(); return ok && *id == pid })
+		if !found {
+			v.Inconclusive("setup", "process %s not found in the model", pid)
+			return
+		}
+		procs[i] = p
+		recs[i] = &c11Recorder{}
+		p.RegisterEventConsumer(recs[i])
+	}
+	// start them and wait until each catch event listens (its ActiveListeningTrace)
+	sub := mtr.SubscribeChannel(make(chan tracing.ITrace, 4096))
+	for i := range procs {
+		listening[i] = make(chan struct{})
+	}
+	go func() {
+		for tr := range sub {
+			if e := drive.Classify(tr); e.Kind == "Listening" {
+				for i := range listening {
+					if e.Node == fmt.Sprintf("c%d", i+1) {
+						close(listening[i])
+					}
+				}
+			}
+		}
+	}()
+	for i, p := range procs {
+		if err := p.StartAll(ctx); err != nil {
+			v.Violate("start-error", cls, "%v", err)
+			return
+		}
+		select {
+		case <-listening[i]:
+		case <-time.After(step.Watchdog):
+			v.Inconclusive("watchdog", "catch event of process %d never listened", i+1)
+			return
+		}
+	}
+	complete := make([]bool, c.MProcs)
+	for step_, ref := range c.Hist {
+		ev := c11Event(c.Kind, ref)
+		done := make(chan error, 1)
+		go func() { _, err := m.ConsumeEvent(ev); done <- err }()
+		select {
+		case err := <-done:
+			if err != nil {
+				v.Violate("model-consume-error", cls, "history %v step %d: %v", c.Hist, step_, err)
+				return
+			}
+		case <-time.After(step.Watchdog):
+			v.Violate("consume-blocked", cls, "history %v step %d: Model.ConsumeEvent did not return", c.Hist, step_)
+			return
+		}
+		v.Add("events-delivered", 1)
+		for i := range recs {
+			// (the engine hands events of its own to the model as well, e.g. when a process reaches its end
+			// event: only the copies of the delivered event count)
+			got := recs[i].count(ev)
+			if !complete[i] && got != 1 {
+				v.Violate("model-delivery-count", cls, "history %v step %d (%s): process %d (still running) was handed the event %d times, expected exactly once", c.Hist, step_, ref, i+1, got)
+				return
+			}
+			if complete[i] && got > 1 {
+				v.Violate("model-delivery-count", cls, "history %v step %d (%s): process %d (completed) was handed the event %d times", c.Hist, step_, ref, i+1, got)
+				return
+			}
+		}
+		// the process whose event this is completes now; the others must not
+		for i, p := range procs {
+			if ref == fmt.Sprintf("r%d", i+1) && !complete[i] {
+				wctx, wcancel := context.WithTimeout(ctx, step.Watchdog)
+				ok := p.WaitUntilComplete(wctx)
+				wcancel()
+				if !ok {
+					v.Violate("listener-missed", cls, "history %v step %d: process %d did not complete after its event %s was handed to the model", c.Hist, step_, i+1, ref)
+					return
+				}
+				complete[i] = true
+			}
+		}
+	}
+	// processes whose event never came are still listening: not complete
+	for i, p := range procs {
+		if complete[i] {
+			continue
+		}
+		wctx, wcancel := context.WithTimeout(ctx, 20*time.Millisecond)
+		ok := p.WaitUntilComplete(wctx)
+		wcancel()
+		if ok {
+			v.Violate("listener-spurious", cls, "history %v: process %d completed although its event was never delivered", c.Hist, i+1)
+			return
+		}
+	}
+}
+
 func c11Cases(tier string, seed uint64) []fw.Case {
 	rng := fw.NewRng(seed, "C11")
 	var cs []fw.Case
+	// several processes of one definitions value inside a model.Model: all histories up to length 4 / 5
+	mlen := 4
+	if tier == "thorough" {
+		mlen = 5
+	}
+	for np := 2; np <= 3; np++ {
+		alpha := []string{"zz"}
+		for i := 1; i <= np; i++ {
+			alpha = append(alpha, fmt.Sprintf("r%d", i))
+		}
+		hi := 0
+		var mrec func(p []string)
+		mrec = func(p []string) {
+			if len(p) > 0 {
+				hi++
+				c := c11Case{Shape: "model", Kind: []string{"signal", "message", "messageop"}[hi%3], MProcs: np, Hist: append([]string(nil), p...)}
+				c.Name = fmt.Sprintf("model/p%d/%s", np, strings.Join(p, ","))
+				cs = append(cs, fw.MkCase("model", &c))
+			}
+			if len(p) == mlen {
+				return
+			}
+			for _, a := range alpha {
+				mrec(append(p, a))
+			}
+		}
+		mrec(nil)
+	}
 	kinds := []string{"signal", "message", "messageop"}
-	for si, shape := range []string{"seq", "par", "twin", "behind", "never", "shared", "merge", "insub"} {
+	for si, shape := range []string{"seq", "par", "twin", "behind", "never", "shared", "merge", "insub", "insub2", "insub3"} {
 		alpha := c11Alphabet(shape)
 		// all histories up to length 4 over the events (answers are interleaved by PRNG below)
 		var hs [][]string
@@ -467,6 +696,11 @@ func init() {
 					}
 				}
 				v.Log = tmp.Log
+				v.Nontrivial = true
+				return v
+			}
+			if cc.Shape == "model" {
+				c11Model(&cc, v)
 				v.Nontrivial = true
 				return v
 			}
